@@ -34,9 +34,12 @@ RULE = (
     "again) / wdraw(render of a generated depth-2 box-widget tree) / clear() / resize(cols, rows; delivered as "
     "_sigwinch_handler + parse_input consuming the flag, optionally with a draw_screen attempted before the resize "
     "is handled) / props(set_terminal_properties colours, bright_is_bold) / pal(register_palette_entry, followed by "
-    "clear()); screen sizes 1..12 x 1..6; colours in {1,16,88,256,2^24}; back_color_erase on/off (terminal BCE on "
+    "clear()) / enc(urwid.set_encoding to one of utf-8, utf8, iso8859-1, ascii, euc-jp while the Screen stays "
+    "started, the terminal switched to the same encoding, followed by clear(); 1 op in 12, 4 in 15 in a campaign "
+    "of its own; the canvases drawn afterwards are built from the same specs under the new encoding, characters "
+    "outside its alphabet replaced by '~'); screen sizes 1..12 x 1..6; colours in {1,16,88,256,2^24}; back_color_erase on/off (terminal BCE on "
     "whenever the screen assumes it); bright_is_bold on/off; alternate buffer or partial-screen mode; palette "
-    "registered before or after set_terminal_properties; encodings utf-8 / iso8859-1 / euc-jp. Canvas rows are "
+    "registered before or after set_terminal_properties; starting encodings utf-8 / iso8859-1 / euc-jp. Canvas rows are "
     "attribute runs (None, palette names incl. aliases registered with the (name, like_name) form, undefined names, "
     "AttrSpec objects of the active depth with every setting) over ASCII, spaces, CJK wide, combining, emoji, DEC "
     "line drawing (charset '0' runs outside utf-8) and C0 controls, completed to the width by a fill character "
@@ -58,6 +61,12 @@ ASSUMPTIONS = [
     "Screens can live in one process)",
     "a palette change after the first draw is followed by clear() (the statement speaks of draws, clears and size "
     "changes only; set_terminal_properties clears by itself); the None entry is not re-registered",
+    "an encoding change in mid-session (urwid.set_encoding with the Screen started; draw_screen reads the encoding "
+    "at every call) is followed by clear() on the Screen (screen_buf holds rows in the old encoding) and happens "
+    "together with an out-of-band switch of the terminal's own encoding, which is modelled as keeping every "
+    "charset designation (what G1 holds) and returning the terminal to G0 (so a shift-out left behind by the last "
+    "non-utf-8 draw is not held against a following utf-8 draw); widget trees are not carried into or drawn "
+    "under another encoding than the one the history started in",
     "a blank cell shows only background, underline, standout and strikethrough (and the foreground when one of "
     "these is set); with bright_is_bold a basic foreground 8..15 is 'bold + colour-8'",
     "partial-screen mode starts on a blank terminal with the cursor at the top-left and as many rows as the "
@@ -72,6 +81,10 @@ ASSUMPTIONS = [
 ]
 
 ENCS = ["utf-8", "utf-8", "iso8859-1", "euc-jp"]
+# what an "enc" step may switch to: the three encodings a history can start in, the second spelling of utf-8 that
+# urwid.set_encoding lists ("utf8": draw_screen takes it for a non-"utf-8" name) and plain ascii
+SWITCH_ENCS = ["utf-8", "utf8", "iso8859-1", "ascii", "euc-jp"]
+_CANON = {"utf8": "utf-8", "latin-1": "iso8859-1"}
 DEPTHS = [1, 16, 88, 256, 2**24]
 
 BASIC_FG = ["default", "black", "dark red", "dark green", "brown", "dark blue", "dark magenta", "dark cyan",
@@ -219,19 +232,38 @@ def style_of(aspec, bib):
 # canvas specs -> cells (pure) -> TextCanvas
 
 
+def canon(enc):
+    return _CANON.get(enc, enc)
+
+
+@functools.lru_cache(maxsize=None)
+def _repertoire(enc):
+    c = canon(enc)
+    return frozenset(T.DEC) if c == "ascii" else frozenset(T.ALPHABET[c])
+
+
+def fit_char(ch, enc):
+    """the character as a canvas built under `enc` holds it: ASCII and the encoding's alphabet (vlib.gen_text) as
+    they are, anything else (only met after an "enc" step) replaced by '~'.  enc None: no replacement"""
+    if enc is None or ord(ch) < 0x80 or ch in _repertoire(enc):
+        return ch
+    return "~"
+
+
 def char_cols(ch):
     if ch in CONTROLS:
         return 1  # urwid counts C0 controls as one column; the display shows '?'
     return W.char_width(ch)
 
 
-def layout_row(rowspec, cols):
+def layout_row(rowspec, cols, enc=None):
     """-> list of [attr_tok, text] segments occupying exactly `cols` columns"""
     out = []
     col = 0
     for tok, text in rowspec["segs"]:
         seg = ""
         for ch in text:
+            ch = fit_char(ch, enc)
             w = char_cols(ch)
             if w == 0:
                 if col == 0:
@@ -247,6 +279,7 @@ def layout_row(rowspec, cols):
         if col >= cols:
             break
     ftok, fch = rowspec["fill"]
+    fch = fit_char(fch, enc)
     fw = char_cols(fch)
     if fw < 1:
         fch, fw = " ", 1
@@ -263,9 +296,9 @@ def layout_row(rowspec, cols):
     return out
 
 
-def layout(spec, cols, rows):
+def layout(spec, cols, rows, enc=None):
     rs = spec["rows"]
-    return [layout_row(rs[y % len(rs)], cols) for y in range(rows)]
+    return [layout_row(rs[y % len(rs)], cols, enc) for y in range(rows)]
 
 
 def row_cells(segs):
@@ -291,13 +324,14 @@ def build_canvas(spec, cols, rows, enc, depth):
     import urwid
 
     texts, attrs, css = [], [], []
-    for segs in layout(spec, cols, rows):
+    dec = canon(enc) != "utf-8"  # line drawing characters travel as charset "0" runs
+    for segs in layout(spec, cols, rows, enc):
         tb, ar, cr = b"", [], []
         for tok, text in segs:
             attr = make_attrspec(tok, depth) if isinstance(tok, list) else tok
             n = 0
             for ch in text:
-                if enc != "utf-8" and ch in DEC_REV:
+                if dec and ch in DEC_REV:
                     b, cs = DEC_REV[ch].encode("ascii"), "0"
                 else:
                     b, cs = ch.encode(enc), None
@@ -414,8 +448,17 @@ class Rig:
     def pump(self):
         data = "".join(d if isinstance(d, str) else d.decode(self.enc, "replace") for d in self.cap.buf)
         self.cap.buf.clear()
-        self.vt.feed(data.encode(self.enc, "replace"))
+        # the stream encodes with the encoding of the moment and the terminal decodes with the same one (every write
+        # is pumped whole, so no character is split between two calls)
+        self.vt.feed(data.encode(self.enc, "replace").decode(self.enc, "replace"))
         return data
+
+    def switch_encoding(self, enc):
+        """the terminal is switched to another character encoding (out of band: a menu entry, ESC % G / ESC % @);
+        modelled as also returning it to G0 -- the designations, in particular what G1 holds, stay as they are"""
+        self.pump()
+        self.enc = enc
+        self.vt.feed("\x0f")
 
 
 def _viol(clause, message, **data):
@@ -587,6 +630,8 @@ def check_history(case):
                 else:
                     canvas = render_widget(last_spec, (cols, rows), enc)
             elif kind == "wdraw":
+                if enc != case["enc"]:
+                    continue  # the tree's texts were generated for the encoding the history started in
                 last_spec = step[1]
                 canvas = render_widget(last_spec, (cols, rows), enc)
             elif kind == "clear":
@@ -604,6 +649,16 @@ def check_history(case):
                     rig.screen.register_palette_entry(step[1][0], fg, bg, mono, fgh, bgh)
                     rig.screen.clear()  # weaker reading: a palette change is followed by a forced repaint
                 pal.define(step[1])
+                continue
+            elif kind == "enc":
+                enc = step[1]
+                mode = use_encoding(enc)  # the application: urwid.set_encoding(enc) (and no stale caches)
+                for rig in rigs:
+                    rig.switch_encoding(enc)
+                    rig.screen.clear()  # weaker reading: an encoding change is followed by a forced repaint
+                last_canvas = None
+                if last_spec is not None and "rows" not in last_spec:
+                    last_spec = None  # a widget tree is not carried into another encoding
                 continue
             elif kind == "resize":
                 if not alt:
@@ -629,7 +684,7 @@ def check_history(case):
                 raise AssertionError(step)
 
             # ---- a draw ----
-            where = f"after step {i} ({kind}, {cols}x{rows}, {depth} colours)"
+            where = f"after step {i} ({kind}, {cols}x{rows}, {depth} colours, {enc})"
             sent = ["", ""]
             try:
                 _draw(inc, (cols, rows), canvas, where)
@@ -639,7 +694,7 @@ def check_history(case):
                 for rig in rigs:
                     compare(rig, canvas, pal, depth, bib, mode, where, not alt, "rows" in last_spec)
             except Violation as v:
-                v.data = dict(getattr(v, "data", {}), cols=cols, rows=rows, depth=depth, enc=enc, alt=alt,
+                v.data = dict(getattr(v, "data", {}), cols=cols, rows=rows, depth=depth, enc=canon(enc), alt=alt,
                               partial_drift=drift, bce=case["bce"], step=i,
                               content=[[(repr(a), cs, bs.decode("latin-1")) for a, cs, bs in row]
                                        for row in canvas.content()])
@@ -881,7 +936,7 @@ _rows = st.integers(1, 6)
 
 
 @functools.lru_cache(maxsize=None)
-def _history_for(enc, controls, widgets, partial, cursors):
+def _history_for(enc, controls, widgets, partial, cursors, switches=1):
     canvas = _canvas_spec(enc, True, controls, cursors)
     mod = st.fixed_dictionaries({
         "edits": st.lists(st.tuples(st.integers(0, 5), _rowspec(enc, True, controls)).map(list), min_size=0, max_size=2),
@@ -902,6 +957,7 @@ def _history_for(enc, controls, widgets, partial, cursors):
         st.tuples(st.just("props"), st.sampled_from(DEPTHS), st.booleans()),
         st.tuples(st.just("pal"), _pal_entry()),
     ]
+    ops += [st.tuples(st.just("enc"), st.sampled_from(SWITCH_ENCS))] * switches
     first = draw_op
     if widgets:
         from vlib import gen_widgets as G
@@ -928,9 +984,15 @@ def _history_for(enc, controls, widgets, partial, cursors):
 _ENC_MIX = [("utf-8", False)] * 8 + [("utf-8", True)] + [("iso8859-1", True)] * 3 + [("euc-jp", True)] * 3
 
 
-def _history_case(widgets=False, partial=None, cursors=False):
-    """cursors=True: every canvas has a cursor (partial-screen mode behind the recorded _cy finding)"""
-    return st.one_of([_history_for(enc, controls, widgets, partial, cursors) for enc, controls in _ENC_MIX])
+# histories made for encoding switches: no control characters where utf-8 is the start (see above), all three starts
+_ENC_MIX_SWITCH = [("utf-8", False)] * 3 + [("iso8859-1", True), ("iso8859-1", False), ("euc-jp", True), ("euc-jp", False)]
+
+
+def _history_case(widgets=False, partial=None, cursors=False, switches=1):
+    """cursors=True: every canvas has a cursor (partial-screen mode behind the recorded _cy finding);
+    switches: weight of the "enc" step among the ops (1 of 12 by default; 4 = the encoding-switch campaign)"""
+    mix = _ENC_MIX if switches == 1 else _ENC_MIX_SWITCH
+    return st.one_of([_history_for(enc, controls, widgets, partial, cursors, switches) for enc, controls in mix])
 
 
 @functools.lru_cache(maxsize=None)
@@ -957,9 +1019,11 @@ def _html_case(defined=False):
 
 
 def _walk_history(case):
-    """yield (kind, cols, rows, cell rows | None, fresh) for every draw; fresh = nothing drawn before / forced repaint"""
+    """yield (kind, cols, rows, cell rows | None, previous cell rows | None (nothing drawn before / forced repaint),
+    encoding) for every draw"""
     cols, rows = case["cols"], case["rows"]
     alt = case.get("alt", True)
+    enc = case["enc"]
     last = None
     prev = None
     forced = True
@@ -984,17 +1048,25 @@ def _walk_history(case):
                 continue
             spec = last
         elif k == "wdraw":
+            if enc != case["enc"]:
+                continue
             spec = last = step[1]
         elif k in ("clear", "props", "pal"):
             forced = True
+            continue
+        elif k == "enc":
+            enc = step[1]
+            forced = True
+            if last is not None and "rows" not in last:
+                last = None
             continue
         elif k == "resize":
             if alt:
                 cols, rows = step[1], step[2]
                 forced = True
             continue
-        cells = [row_cells(r) for r in layout(spec, cols, rows)] if "rows" in spec else None
-        yield k, cols, rows, cells, (prev if not forced else None)
+        cells = [row_cells(r) for r in layout(spec, cols, rows, enc)] if "rows" in spec else None
+        yield k, cols, rows, cells, (prev if not forced else None), enc
         prev = cells
         forced = False
 
@@ -1008,11 +1080,23 @@ def _history_features(case):
     if any(len(e) == 2 for e in case.get("palette", [])):
         out.add("palette-alias")
     for step in case["steps"]:
-        if step[0] in ("clear", "resize", "props", "pal", "same", "wdraw"):
+        if step[0] in ("clear", "resize", "props", "pal", "same", "wdraw", "enc"):
             out.add(f"op:{step[0]}")
-    for _k, cols, rows, cells, prev in _walk_history(case):
+    drawn_in = []  # canonical encodings of the draws so far
+    for _k, cols, rows, cells, prev, enc in _walk_history(case):
         if cols == 1:
             out.add("one-column")
+        c = canon(enc)
+        if drawn_in and drawn_in[-1] != c:
+            kinds = ["utf-8" if e == "utf-8" else "non-utf-8" for e in (drawn_in[-1], c)]
+            out.add(f"draw-after-switch:{kinds[0]}->{kinds[1]}")
+            if cells is not None and any(g in DEC_REV for r in cells for g, _t in r):
+                out.add(f"line-drawing-after-switch:{kinds[0]}->{kinds[1]}")
+            if len(set(drawn_in)) >= 2 and c in drawn_in:
+                out.add("draw-after-switch-back")
+        drawn_in.append(c)
+        if enc not in (case["enc"], c):
+            out.add(f"spelling:{enc}")
         if cells is None:
             continue
         last = cells[-1]
@@ -1070,6 +1154,7 @@ def shard(ctx):
     n_wid = ctx.scale(50, 1500)
     n_part = ctx.scale(60, 1000)
     n_html = ctx.scale(110, 2500)
+    n_enc = ctx.scale(60, 1500)
     ctx.given("history", _history_case(), n_hist, nontrivial=_history_nontrivial, classify=_history_classes)
     if ctx.failure is None:
         ctx.given("history", _history_case(partial=True), n_part // 4, nontrivial=_history_nontrivial,
@@ -1079,6 +1164,9 @@ def shard(ctx):
                   nontrivial=_history_nontrivial, classify=_history_classes)
     if ctx.failure is None:
         ctx.given("history", _history_case(widgets=True), n_wid, nontrivial=_history_nontrivial,
+                  classify=_history_classes)
+    if ctx.failure is None:
+        ctx.given("history", _history_case(switches=4), n_enc, nontrivial=_history_nontrivial,
                   classify=_history_classes)
     if ctx.failure is None:
         ctx.given("html", _html_case(), n_html // 4, nontrivial=_html_nontrivial, classify=_html_classes)
